@@ -255,9 +255,11 @@ pub enum Ev {
     Byte(u8),
     WouldBlock,
     Interrupted,
-    Other,
-    /// this read attempt reports end of input (`Ok(0)`); later attempts continue
-    Eof,
+    /// a hard error; the number selects the concrete `io::ErrorKind`
+    Other(u8),
+    /// this read attempt reports end of input; later attempts continue.
+    /// 0: `Ok(0)`, 1: `Err(UnexpectedEof)`, 2: `Err(UnexpectedEof)` carrying a payload
+    Eof(u8),
 }
 
 pub fn parse_events(toks: &[&str]) -> Option<Vec<Ev>> {
@@ -266,8 +268,10 @@ pub fn parse_events(toks: &[&str]) -> Option<Vec<Ev>> {
         match *t {
             "W" => v.push(Ev::WouldBlock),
             "I" => v.push(Ev::Interrupted),
-            "O" => v.push(Ev::Other),
-            "E" => v.push(Ev::Eof),
+            t if t.starts_with('O') => v.push(Ev::Other(t.as_bytes().get(1).map(|c| c.wrapping_sub(b'a') + 1).unwrap_or(0))),
+            "E" => v.push(Ev::Eof(0)),
+            "Ee" => v.push(Ev::Eof(1)),
+            "Ex" => v.push(Ev::Eof(2)),
             t => v.extend(untok(t)?.into_iter().map(Ev::Byte)),
         }
     }
@@ -295,8 +299,19 @@ impl Read for IoPlayer {
                     }
                     Ev::WouldBlock => Err(std::io::ErrorKind::WouldBlock.into()),
                     Ev::Interrupted => Err(std::io::ErrorKind::Interrupted.into()),
-                    Ev::Other => Err(std::io::Error::new(std::io::ErrorKind::Other, "injected")),
-                    Ev::Eof => Ok(0),
+                    Ev::Other(k) => {
+                        use std::io::ErrorKind::*;
+                        let kinds = [Other, TimedOut, BrokenPipe, ConnectionReset, ConnectionAborted, NotConnected, InvalidData, InvalidInput, PermissionDenied, OutOfMemory, Unsupported, NotFound, AlreadyExists, WriteZero, AddrInUse, ConnectionRefused];
+                        let kind = kinds[k as usize % kinds.len()];
+                        if k % 2 == 0 {
+                            Err(std::io::Error::new(kind, "injected"))
+                        } else {
+                            Err(kind.into())
+                        }
+                    }
+                    Ev::Eof(0) => Ok(0),
+                    Ev::Eof(1) => Err(std::io::ErrorKind::UnexpectedEof.into()),
+                    Ev::Eof(_) => Err(std::io::Error::new(std::io::ErrorKind::UnexpectedEof, "stream closed by peer")),
                 }
             }
         }
@@ -334,7 +349,7 @@ impl embedded_hal_02::serial::Read<u8> for EhPlayer {
                 match ev {
                     Ev::Byte(b) => Ok(b),
                     Ev::WouldBlock => Err(nb::Error::WouldBlock),
-                    Ev::Interrupted | Ev::Other | Ev::Eof => Err(nb::Error::Other(7)),
+                    Ev::Interrupted | Ev::Other(_) | Ev::Eof(_) => Err(nb::Error::Other(7)),
                 }
             }
         }
@@ -684,13 +699,13 @@ fn sml_generic<B: Buffer>(kind: &str, use_default: bool, mk: fn() -> sml_rs::Sml
         .filter_map(|e| if let Ev::Byte(b) = e { Some(*b) } else { None })
         .collect();
     match kind {
-        "mem" if evs.iter().any(|e| matches!(e, Ev::Eof)) => {
+        "mem" if evs.iter().any(|e| matches!(e, Ev::Eof(_))) => {
             // a non-fused iterator: yields `None` at the `E` positions and items again afterwards
             let items: Vec<Option<u8>> = evs
                 .iter()
                 .filter_map(|e| match e {
                     Ev::Byte(b) => Some(Some(*b)),
-                    Ev::Eof => Some(None),
+                    Ev::Eof(_) => Some(None),
                     _ => None,
                 })
                 .collect();
